@@ -248,6 +248,8 @@ def shard(ctx, si, payload):
             ctx.exhaustive_subspaces.append(f"all {math.factorial(P)} start orders of {P} partitions (partition size {ps}, {n} events)")
     elif fam == "yield":
         n, ps = 40, 5
+        det_y = float(payload.get("det", 525.0))  # a detector other than the kernel's 525 km reference orbit too
+        ref_y = seqn(n) if det_y == 525.0 else sequential(sub(n), det=det_y)
         total_sw, points = 0, set()
         focus = set()
         seeds = [int(x) for x in rng.integers(0, 2**31, payload["nseeds"])]
@@ -256,7 +258,7 @@ def shard(ctx, si, payload):
         while qi < len(seeds):
             s = seeds[qi]
             qi += 1
-            k = CphotAng(525.0)
+            k = CphotAng(det_y)
             inj = sched.YieldInjector(int(s), CphotAng, p=0.05, focus_lines=focus)
             with sched.frozen(k) as fz:
                 try:
@@ -267,7 +269,10 @@ def shard(ctx, si, payload):
                     continue
             total_sw += inj.switches
             points |= inj.switch_points
-            judge(got, n, "yield", f"4 threads with yield injection (seed {int(s)}, {inj.switches} thread switches at {len(inj.switch_points)} source lines{', focused on lines after writes to the shared object' if focus else ''})", {"seed": int(s), "focus": sorted(focus)[:6]})
+            ctx.count("yield", n)
+            ctx.distinct.add(("yield", det_y, int(s)))
+            if not same(got, ref_y):
+                ctx.violation("yield", f"detector {det_y} km, 4 threads with yield injection (seed {int(s)}, {inj.switches} thread switches at {len(inj.switch_points)} source lines{', focused on lines after writes to the shared object' if focus else ''}): batch of {n} differs from one-at-a-time evaluation: {describe_diff(got, ref_y)}", {"seed": int(s), "det": det_y, "focus": sorted(focus)[:6]})
             ctx.count("frozen-state", n)
             if fz.get("writes") or not fz.get("digest_equal", True):
                 # a write to the shared kernel object is an observation (a benign cache is legal);
@@ -320,7 +325,7 @@ def run(ctx):
         {"family": "adversarial", "n": 250, "ps": 25, "nsched": 6 if not T else 60},
         {"family": "adversarial", "n": 12, "ps": 3, "nsched": 0, "enumerate": True},
         {"family": "yield", "nseeds": 6 if not T else 60},
-        {"family": "yield", "nseeds": 6 if not T else 60},
+        {"family": "yield", "nseeds": 6 if not T else 60, "det": 33.0},
         {"family": "faults", "schedulers": [("synchronous", {"scheduler": "synchronous"}), ("threads-4", {"scheduler": "threads", "num_workers": 4})], "pos25": list(range(25)), "pos250": [0, 99, 100, 125, 249]},
         {"family": "faults", "schedulers": [("processes-2", {"scheduler": "processes", "num_workers": 2})], "pos25": [0, 12, 24] if not T else list(range(0, 25, 3)), "pos250": [100] if not T else [0, 99, 100, 249]},
     ]
